@@ -631,7 +631,8 @@ func (gw *GlobalWindow) getKeyAndValues(data map[string]any) (string, map[string
 	values := make(map[string]any, len(gw.groupByKeys))
 	for i, k := range gw.groupByKeys {
 		var val any
-		if fieldpath.IsNestedField(k) {
+		if fieldpath.IsNestedField(k) && !strings.Contains(k, "(") {
+			// a function-expression key (round(v*0.1)) was computed into the row: the dot in it is no path
 			val, _ = fieldpath.GetNestedField(data, k)
 		} else if v.IsValid() && v.Kind() == reflect.Map && v.Type().Key().Kind() == reflect.String {
 			if mv := v.MapIndex(reflect.ValueOf(k)); mv.IsValid() {
